@@ -35,7 +35,7 @@ func runC11(t *testing.T, s *kit.Session, c c11Case) *kit.Failure {
 	wBase := stripGlobals(w)
 	check := func(b *kit.Built) *kit.Failure {
 		// (ii)+(iii): agreement with the model under P ∪ G
-		if f := checkWorldC01(b, &w, false); f != nil {
+		if f := checkWorldC01(b, &w, true); f != nil {
 			return f
 		}
 		return nil
@@ -96,7 +96,7 @@ func runC11(t *testing.T, s *kit.Session, c c11Case) *kit.Failure {
 			hasForce = true
 		}
 	}
-	mBase := &kit.Model{W: &wBase, Opts: kit.ModelOptions{PropagationUnverified: true}}
+	mBase := &kit.Model{W: &wBase, Opts: kit.ModelOptions{}}
 	baseRejects := false
 	for _, ref := range wgRefs {
 		if mBase.VerifyFull(ref).Kind == "REJECT" {
@@ -115,7 +115,7 @@ func TestC11(t *testing.T) {
 		return
 	}
 	s.SetRule("rapid: the C01 worlds whose policy states additionally declare 0-3 global rules (threshold k in 1..3 or block-force-pushes; patterns matching the verified ref, another ref, a wildcard or nothing), with pushes, force pushes (non-descendant commits), approvals, annotations and policy changes. Oracles: (i) metamorphic monotonicity - the same history is built under P+G and under P alone, accept(P+G) => accept(P); (ii)/(iii) the reference model with global rules (policy-wide credit below k or a non-descendant target => reject, rule credit >= k and descendant => accept, in between unspecified) for VerifyRefFull / VerifyRef / VerifyRefFromEntry. Non-trivial: a global rule present and (the delegation rules alone reject the history, or a force push occurs)")
-	opt := wgOptions{Delegation: true, Globals: true}
+	opt := wgOptions{Delegation: true, Globals: true, PropProtected: true}
 	kit.Campaign(s, t, "globals", "world", s.Budget(8_000, 250_000), func(rt *rapid.T) c11Case {
 		cl := map[string]bool{}
 		w := genWorld(rt, opt, cl)
